@@ -2044,6 +2044,274 @@ def c20(tier, seed):
 
 
 # ---------------------------------------------------------------------------------------------
+# C17: lock order / progress (Locks.tla; programs = observed critical sections; predicted cycles confirmed by steering)
+# ---------------------------------------------------------------------------------------------
+def c17_doc(name, dm="rfsm-expression", ticks=30, child_ticks=6, tick_ms=2):
+    hdr = '<scxml xmlns="http://www.w3.org/2005/07/scxml" version="1.0" datamodel="%s" name="%s">'
+    child = (hdr % (dm, name + "kid")) + '<datamodel><data id="n" expr="0"/></datamodel><state id="c">' \
+        '<onentry><send target="#_parent" event="hello"/><send event="ctick" delay="%dms"/></onentry>' % tick_ms + \
+        '<transition event="ctick" cond="n &lt; %d"><assign location="n" expr="n + 1"/><send event="ctick" delay="%dms"/>' % (child_ticks, tick_ms) + \
+        '<send target="#_parent" event="fromkid"/></transition>' \
+        '<transition event="stop" target="f"/></state><final id="f"/></scxml>'
+    return (hdr % (dm, name)) + '<datamodel><data id="peer" expr="0"/><data id="n" expr="0"/></datamodel>' \
+        '<state id="run"><onentry><send event="tick" delay="%dms" id="tk"/></onentry>' % tick_ms + \
+        '<transition event="init"><assign location="peer" expr="_event.data.peer"/></transition>' \
+        '<transition event="tick" cond="n &lt; %d"><assign location="n" expr="n + 1"/><send event="tick" delay="%dms" id="tk"/>' % (ticks, tick_ms) + \
+        '<send event="ping" targetexpr="\'#_scxml_\' + peer"/></transition>' \
+        '<transition event="more"><assign location="n" expr="0"/><send event="tick" delay="%dms" id="tk"/></transition>' % tick_ms + \
+        '<transition event="ping"/><transition event="hello"/><transition event="fromkid"/>' \
+        '<transition event="kidstop"><send target="#_kid" event="stop"/></transition>' \
+        '<transition event="quit" target="fin"/>' \
+        '<state id="idle"><transition event="go" target="busy"/></state>' \
+        '<state id="busy"><invoke type="scxml" id="kid"><content>' + child + '</content></invoke>' \
+        '<transition event="leave" target="idle"/><transition event="done.invoke.kid" target="idle"/></state>' \
+        '</state><final id="fin"/></scxml>'
+
+
+def c17_scenarios(tier, rng):
+    """-> list of (name, sessions, steps)"""
+    A, B, C = c17_doc("A"), c17_doc("B"), c17_doc("C")
+    init = lambda names: [{"send": n, "event": {"name": "init", "params": {"peer": "$sid:" + names[(k + 1) % len(names)]}}} for k, n in enumerate(names)]
+    def cyc(n, evs, reps, us):
+        out = []
+        for _ in range(reps):
+            for e in evs:
+                out += [{"send": n, "event": e}, {"sleep_us": us}]
+        return out
+    sc = []
+    sc.append(("invoke-with-timers", [("A", A), ("B", B)],
+               [{"start": "A"}, {"start": "B"}] + init(["A", "B"]) +
+               [{"threads": [cyc("A", ["go", "leave"], 4, 1500), cyc("B", ["go", "kidstop", "more"], 3, 2500)]}, {"settle": 60}]))
+    sc.append(("start-while-sending", [("A", A), ("B", B), ("C", C)],
+               [{"start": "A"}, {"start": "B"}] + init(["A", "B"]) +
+               [{"threads": [cyc("A", ["go", "leave", "more"], 3, 2000), [{"sleep_us": 3000}, {"start": "C"}] + init(["C", "A"])[:1] + cyc("C", ["go", "leave"], 2, 2000)]},
+                {"settle": 60}]))
+    sc.append(("cancel-while-busy", [("A", A), ("B", B)],
+               [{"start": "A"}, {"start": "B"}] + init(["A", "B"]) +
+               [{"threads": [cyc("A", ["go", "leave"], 3, 1500), [{"sleep_us": 9000}, {"send": "B", "event": "go"}, {"sleep_us": 2000}] ]},
+                {"cancel": "B"}, {"send": "A", "event": "quit"}, {"settle": 60}]))
+    sc.append(("shutdown-while-busy", [("A", A), ("B", B)],
+               [{"start": "A"}, {"start": "B"}] + init(["A", "B"]) + cyc("A", ["go"], 1, 3000) + cyc("B", ["go"], 1, 4000) +
+               [{"shutdown": True}, {"settle": 100}]))
+    return sc
+
+
+def c17_kind(tname):
+    if tname.startswith("fsm_"):
+        return "session"
+    if tname.startswith("Timer"):
+        return "timer"
+    return "host"
+
+
+def c17_class(cls):
+    for k2, short in (("GlobalData", "G"), ("ExecutorState", "E"), ("EventIOProcessor", "P"), ("datamodel::Data", "D"),
+                      ("actions::Action", "A"), ("mpsc::Receiver", "Q"), ("TracerFactory", "TF"), ("DatamodelFactory", "DF")):
+        if k2 in cls:
+            return short
+    return cls[-20:]
+
+
+C17_CLASSNAME = {"G": "GlobalData", "E": "ExecutorState", "P": "EventIOProcessor", "D": "datamodel::Data", "A": "actions::Action",
+                 "Q": "mpsc::Receiver", "TF": "TracerFactory", "DF": "DatamodelFactory"}
+
+
+def c17_reduce(L):
+    """recorded segments -> thread programs for Locks.tla (leaf locks removed, locks renumbered)"""
+    segs = L["segments"]
+    # a lock is a holder-side lock if something is requested while it is held
+    nonleaf = set()
+    for t, ss in segs.items():
+        for sg in ss:
+            held = []
+            for op, l in sg:
+                if op in ("a", "t"):
+                    if op == "a":
+                        nonleaf.update(held)
+                    held.append(l)
+                else:
+                    if l in held:
+                        held.remove(l)
+    # a lock used by one thread only cannot be part of a cycle (data values, the session's queue receiver, ...)
+    users = {}
+    for t, ss in segs.items():
+        for sg in ss:
+            for op, l in sg:
+                users.setdefault(l, set()).add(t)
+    shared = {l for l, u in users.items() if len(u) >= 2}
+    nonleaf &= shared
+    # locks that matter: non-leaf ones and those requested (blocking) while a non-leaf is held
+    threads = []
+    ids = {}
+    for t in sorted(segs):
+        out = set()
+        for sg in segs[t]:
+            held = []
+            keep = []
+            for op, l in sg:
+                if op in ("a", "t"):
+                    if l in shared and (l in nonleaf or (op == "a" and any(h in nonleaf for h in held))):
+                        keep.append((op, l))
+                    held.append(l)
+                else:
+                    if l in held:
+                        held.remove(l)
+                    if any(k2[1] == l for k2 in keep if k2[0] != "u"):
+                        keep.append((op, l))
+            # drop releases of locks whose acquisition was dropped, and trivial programs
+            acq = [k2 for k2 in keep if k2[0] != "u"]
+            if len(acq) >= 2:
+                out.add(tuple(keep))
+        if out:
+            prog = []
+            for sg in sorted(out):
+                prog.append([[op, ids.setdefault(l, len(ids) + 1)] for op, l in sg])
+            threads.append({"name": t, "segs": prog})
+    return threads, {v: k2 for k2, v in ids.items()}
+
+
+@check("C17")
+def c17(tier, seed):
+    t0 = time.time()
+    wd = vlib.workdir("C17")
+    V = vlib.Verdicts("C17")
+    vlib.build_harness()
+    rng = random.Random(seed)
+    scs = c17_scenarios(tier, rng)
+    reps = 2 if tier == "quick" else 8
+
+    def job_for(k, points=None):
+        name, sessions, steps = scs[k]
+        j = {"id": 1, "sessions": [{"name": n, "xml": x} for n, x in sessions], "steps": steps, "timeout_ms": 8000, "locks": True}
+        if points:
+            j["points"] = points
+        return j
+
+    def waitfor_cycle(L):
+        w = {x["thread"]: x for x in L.get("waiting", [])}
+        holder = {}
+        for t, x in w.items():
+            for l in x["held"]:
+                holder[l] = t
+        for t in w:
+            seen = [t]
+            cur = t
+            while True:
+                nxt = holder.get(w[cur]["wants"])
+                if nxt is None or nxt not in w:
+                    break
+                if nxt in seen:
+                    cyc = seen[seen.index(nxt):]
+                    return [(c17_kind(c), sorted({c17_class(L["classes"][str(l)]) for l in w[c]["held"]}),
+                             c17_class(L["classes"][str(w[c]["wants"])])) for c in cyc]
+                seen.append(nxt)
+                cur = nxt
+        return None
+
+    def sig(cyc):
+        parts = sorted("%s[%s>%s]" % (k2, "+".join(h), wnt) for (k2, h, wnt) in cyc)
+        return " | ".join(parts)
+
+    # ---- (1) record the critical sections of every scenario
+    recorded = []
+    nruns = 0
+    for k in range(len(scs)):
+        for rep in range(reps):
+            res = run_scen_jobs([job_for(k)], wd, name="rec%d_%d" % (k, rep), threads=1, timeout=120)
+            r = res[1]
+            nruns += 1
+            if r.get("errors"):
+                raise ToolError("C17 scenario %s: %s" % (scs[k][0], r["errors"]))
+            L = r["locks"]
+            if r.get("stalls"):
+                cyc = waitfor_cycle(L)
+                V.report("deadlock:" + (sig(cyc) if cyc else "stall-without-lock-cycle:" + scs[k][0]),
+                         "scenario %s stalled%s" % (scs[k][0], " in a lock cycle" if cyc else ""),
+                         {"scenario": scs[k][0], "waiting": L.get("waiting"), "cycle": cyc})
+                continue
+            if r.get("panics") or r.get("other_panics"):
+                V.report("panic:" + scs[k][0], "panic in scenario %s" % scs[k][0], {"panics": r.get("panics"), "other": r.get("other_panics")})
+            threads, idmap = c17_reduce(L)
+            recorded.append({"k": k, "threads": threads, "idmap": idmap, "classes": L["classes"], "overflow": L["overflow"]})
+    if not recorded and not V.violations:
+        raise ToolError("C17: nothing recorded")
+    # ---- (2) TLC: all interleavings of every K threads running their observed critical sections
+    cands = {}
+    tv = {"distinct": 0, "states": 0}
+    if recorded:
+        with open(os.path.join(wd, "traces.ndjson"), "w") as f:
+            for rc_ in recorded:
+                f.write(json.dumps({"threads": rc_["threads"]}) + "\n")
+        tv = vlib.run_tlc("Locks", "Locks.cfg", wd, env={"TRACES": "traces.ndjson"}, timeout=int(os.environ.get("C17_TLC_TIMEOUT", "900")), workers=8,
+                          consts={"K": "2" if tier == "quick" else "3"})
+        for t in vlib.tlc_tuples(tv["text"], "CYCLE"):
+            v = vlib.parse_tla_value(t)
+            rc_ = recorded[v[1] - 1]
+            members = v[2] if isinstance(v[2], list) else list(v[2].values())
+            info = []
+            for m in members:
+                tname, seg, pcx, want, held = m[0], m[1], m[2], m[3], m[4]
+                cl = lambda l: c17_class(rc_["classes"][str(rc_["idmap"][l])])
+                info.append({"thread": tname, "kind": c17_kind(tname), "wants": want, "wants_class": cl(want),
+                             "held": sorted(held), "held_classes": sorted({cl(h) for h in held})})
+            key = sig([(x["kind"], x["held_classes"], x["wants_class"]) for x in info])
+            cands.setdefault(key, {"k": rc_["k"], "members": info, "count": 0})
+            cands[key]["count"] += 1
+        tv["text"] = ""
+    # ---- (3) confirm every predicted cycle in the implementation (steer the real threads to the same points)
+    confirmed, unconfirmed = [], []
+    for key, c in sorted(cands.items()):
+        mem = c["members"]
+        # cycle order: what member j wants is held by member j+1
+        order = [mem[0]]
+        while len(order) < len(mem):
+            nxt = [m for m in mem if order[-1]["wants"] in m["held"] and m not in order]
+            if not nxt:
+                break
+            order.append(nxt[0])
+        if len(order) != len(mem):
+            order = mem
+        points = []
+        for j, m in enumerate(order):
+            prev = order[j - 1]
+            points.append({"thread": {"session": "fsm_", "timer": "Timer", "host": ""}[m["kind"]],
+                           "holds": C17_CLASSNAME.get(prev["wants_class"], prev["wants_class"]),
+                           "wants": C17_CLASSNAME.get(m["wants_class"], m["wants_class"])})
+        hit = None
+        tries = 3 if tier == "quick" else 8
+        for a in range(tries):
+            res = run_scen_jobs([job_for(c["k"], points)], wd, name="conf%d" % a, threads=1, timeout=120)
+            r = res[1]
+            nruns += 1
+            if r.get("stalls"):
+                cyc = waitfor_cycle(r["locks"])
+                if cyc:
+                    hit = (cyc, r["locks"].get("waiting"), r["locks"].get("rendezvous"))
+                    break
+        if hit:
+            confirmed.append(key)
+            V.report("deadlock:" + sig(hit[0]), "predicted by Locks.tla and reproduced in scenario %s: %s" % (scs[c["k"]][0], sig(hit[0])),
+                     {"scenario": scs[c["k"]][0], "predicted": c["members"], "points": points, "waiting": hit[1], "rendezvous": hit[2]})
+        else:
+            unconfirmed.append(key)
+    rc = V.finish()
+    cov = {"states": tv["distinct"], "transitions": tv["states"], "traces_validated_against_impl": len(recorded),
+           "samples": [{"scenario": scs[recorded[0]["k"]][0], "threads": [{"name": t["name"], "segments": len(t["segs"])} for t in recorded[0]["threads"]]}] if recorded else [],
+           "evaluations": nruns, "distinct_nontrivial": sum(len(t["segs"]) for rc_ in recorded for t in rc_["threads"]),
+           "rule": "%d recorded runs of %d scenarios (invoke with timers, start while sending, cancel, shutdown): the distinct critical "
+                   "sections of every thread (after removal of leaf locks) are the thread programs of Locks.tla; TLC explored every "
+                   "interleaving of every %s threads per run and predicted %d distinct wait-for cycles; %d were reproduced in the "
+                   "implementation by steering the real threads to the predicted program points (each reproduction is a deadlock), "
+                   "%d could not be reproduced: %s"
+                   % (len(recorded), len(scs), "2" if tier == "quick" else "3", len(cands), len(confirmed), len(unconfirmed),
+                      "; ".join(unconfirmed)[:600])}
+    vlib.write_evidence("C17", tier, seed, "model_checking", cov, time.time() - t0, len(V.violations),
+                        ["a predicted cycle that cannot be reproduced is not reported (the model ignores happens-before between segments)",
+                         "only lock nestings that occurred in a recorded run are in the model"])
+    return rc
+
+
+# ---------------------------------------------------------------------------------------------
 # C10 / C11: Expr.tla as generator + oracle, the engine evaluated in `vh expr`
 # ---------------------------------------------------------------------------------------------
 OPERANDS = ["0", "1", "2", "3", "7", "10", "-1", "-4", "2.5", "0.5", "1.0", "-1.5", "'a'", "'b'", "'ab'", "''", "true",
